@@ -162,7 +162,7 @@ theorem step_countOk {s : GSt} (h : CountOkF (pendFrgs s)) (op : Op) : CountOkF 
             · split
               · show CountOkF (_ ++ frgs (sendQ1 s.k buf)); rw [sendQ1_frgs]; exact h
               · split
-                · show CountOkF (_ ++ frgs (sendQ1 s.k buf)); rw [sendQ1_frgs]; exact h
+                · exact h
                 · rename_i hc
                   split
                   · show CountOkF (_ ++ frgs (sendQ1 s.k buf)); rw [sendQ1_frgs]; exact h
